@@ -9,6 +9,9 @@ open NauyacaVerif.Drv Misc
     op     ::= `g:<hop>` | `u:<hop>` | `r:<hop>/<hop>/…`   get / upload / redirect chain
              | `t:h.p=f` | `v:h.p` | `vh:h` | `c`          trust / revoke / revoke_by_hostname / clear
              | `im:<s|u>:<store>` | `ir:<s|u>:<store>`     import merge / replace, conflicts skipped / updated
+             | `pa:<g|u>.<hop>:<g|u>.<hop>`                two OVERLAPPING calls; only as the last op.  Its step shows
+                                                           both serialisations: `<recA,recB;store>~<recA,recB;store>`
+                                                           (first A then B ~ first B then A; records always in the order A,B)
     hop    ::= `h.p.<f|x>`                                 x = unreadable certificate
     output ::= `ok <step>*`, step ::= `<rec,rec,…|->;<store'>`
     rec    ::= `A:<n>` | `C<old>/<new>:<n>` | `R:<n>`      n = number of writes the peer received -/
@@ -89,13 +92,56 @@ def runStepsOff (s : Pins) : List Op → List (Pins × List Rec)
   | [] => []
   | o :: os => stepOff s o :: runStepsOff (stepOff s o).1 os
 
+/-- `g.h.p.c` / `u.h.p.c` -/
+def parseCall (s : String) : Option Hop :=
+  match s.splitOn "." with
+  | [k, h, p, c] =>
+    if k == "g" then parseHop [1] s!"{h}.{p}.{c}"
+    else if k == "u" then parseHop [1, 2] s!"{h}.{p}.{c}"
+    else none
+  | _ => none
+
+def parsePar (s : String) : Option (Hop × Hop) :=
+  match s.splitOn ":" with
+  | ["pa", a, b] => match parseCall a, parseCall b with
+    | some x, some y => some (x, y)
+    | _, _ => none
+  | _ => none
+
+/-- both serialisations of two overlapping single calls, records reported in the order (A, B) -/
+def showPar (on : Bool) (s : Pins) (a b : Hop) : String :=
+  if on then
+    let ra := mkRec s a
+    let rb := mkRec ra.after b
+    let rb' := mkRec s b
+    let ra' := mkRec rb'.after a
+    s!"{showRec ra},{showRec rb};{showStore rb.after}~{showRec ra'},{showRec rb'};{showStore ra'.after}"
+  else
+    s!"{showRec (offRec s a)},{showRec (offRec s b)};{showStore s}~{showRec (offRec s a)},{showRec (offRec s b)};{showStore s}"
+
+def lastStore (s : Pins) (steps : List (Pins × List Rec)) : Pins :=
+  match steps.getLast? with
+  | some x => x.1
+  | none => s
+
 def handle : List String → Option String
   | "tofu" :: mode :: store :: ops =>
-    match parseStore store, ops.mapM parseOp with
+    if mode != "on" && mode != "off" then some "bad-op" else
+    let on := mode == "on"
+    let par := match ops.getLast? with
+      | some l => if l.startsWith "pa:" then some l else none
+      | none => none
+    let seqOps := if par.isSome then ops.dropLast else ops
+    match parseStore store, seqOps.mapM parseOp with
     | some s, some os =>
-      if mode == "on" then some ("ok " ++ " ".intercalate ((runSteps s os).map showStep))
-      else if mode == "off" then some ("ok " ++ " ".intercalate ((runStepsOff s os).map showStep))
-      else some "bad-op"
+      let steps := if on then runSteps s os else runStepsOff s os
+      let shown := steps.map showStep
+      match par with
+      | none => some ("ok " ++ " ".intercalate shown)
+      | some l =>
+        match parsePar l with
+        | some (a, b) => some ("ok " ++ " ".intercalate (shown ++ [showPar on (lastStore s steps) a b]))
+        | none => some "bad-op"
     | _, _ => some "bad-op"
   | _ => none
 end NauyacaVerif.Drv.SessD
